@@ -6,8 +6,11 @@ package c17
 // service's rpcs.
 
 import (
+	"bytes"
+	"compress/gzip"
 	"embed"
 	"fmt"
+	"io"
 	"math"
 	"os"
 	"path/filepath"
@@ -23,6 +26,7 @@ import (
 	"google.golang.org/protobuf/proto"
 	"google.golang.org/protobuf/reflect/protoreflect"
 	"google.golang.org/protobuf/reflect/protoregistry"
+	"google.golang.org/protobuf/types/descriptorpb"
 )
 
 type apiVersion struct {
@@ -1117,6 +1121,17 @@ func (c *srcCmp) goBindings() {
 		if rt.Elem().Name() != goName {
 			c.bad("go:type-name", path, "Go type name differs", goName, rt.Elem().Name())
 		}
+		// The legacy entry point: Descriptor() returns the gzipped file
+		// descriptor and the index path of the message in it; following the
+		// path must lead to this very message.
+		if ld, ok := mt.Zero().Interface().(interface{ Descriptor() ([]byte, []int) }); ok {
+			c.el("go-legacy-descriptor", path)
+			if name, err := legacyPathName(ld.Descriptor()); err != nil {
+				c.bad("go:legacy-descriptor", path, "legacy Descriptor() cannot be followed: "+err.Error(), string(md.FullName()), "")
+			} else if name != string(md.FullName()) {
+				c.bad("go:legacy-descriptor", path, "legacy Descriptor() index path names another message", string(md.FullName()), name)
+			}
+		}
 		st := rt.Elem()
 		byNum := map[int]reflect.StructField{}
 		oneofs := map[string]bool{}
@@ -1333,4 +1348,34 @@ func (c *srcCmp) serviceDesc(v apiVersion) {
 			c.bad("servicedesc:interface", string(sd.Name())+"."+n, "server interface has a method that is no rpc", "<absent>", n)
 		}
 	}
+}
+
+// legacyPathName gunzips a legacy descriptor and follows the message index
+// path, returning the full name of the message found there.
+func legacyPathName(gz []byte, path []int) (string, error) {
+	zr, err := gzip.NewReader(bytes.NewReader(gz))
+	if err != nil {
+		return "", err
+	}
+	raw, err := io.ReadAll(zr)
+	if err != nil {
+		return "", err
+	}
+	var fdp descriptorpb.FileDescriptorProto
+	if err := proto.Unmarshal(raw, &fdp); err != nil {
+		return "", err
+	}
+	if len(path) == 0 || path[0] < 0 || path[0] >= len(fdp.MessageType) {
+		return "", fmt.Errorf("index path %v out of range", path)
+	}
+	m := fdp.MessageType[path[0]]
+	name := fdp.GetPackage() + "." + m.GetName()
+	for _, i := range path[1:] {
+		if i < 0 || i >= len(m.NestedType) {
+			return "", fmt.Errorf("index path %v out of range", path)
+		}
+		m = m.NestedType[i]
+		name += "." + m.GetName()
+	}
+	return name, nil
 }
